@@ -1,6 +1,7 @@
 import QuickAdd.Model.Regex
 import QuickAdd.Gen.Classes
 import QuickAdd.Gen.RegexTable
+import QuickAdd.Model.Codec
 /-! Line-protocol driver: one operation per input line, one answer line per operation.
     Texts travel as blank-separated decimal code points (`-` = empty text). -/
 open QuickAdd QuickAdd.Gen
@@ -27,9 +28,33 @@ def opRx (args : List String) : String :=
       ";".intercalate <| ms.map fun (s, e, cs) => s!"{s} {e} {fmtCaps cs p.names}"
   | _ => "bad-op"
 
+def fmtRes (r : Except PyErr (Option Art)) : String :=
+  match r with
+  | .ok none => "ok N"
+  | .ok (some a) => "ok " ++ a.enc
+  | .error e => "err " ++ e.name
+
+def opRule (args : List String) : String :=
+  match args with
+  | name :: tsS :: rest =>
+    match Ts.dec tsS, rest.mapM Art.dec with
+    | some ts, some as => fmtRes (applyRule name ts as)
+    | _, _ => "bad-op"
+  | _ => "bad-op"
+
+def opLatent (args : List String) : String :=
+  match args with
+  | [tsS, a] =>
+    match Ts.dec tsS, Art.dec a with
+    | some ts, some a => fmtRes ((applyLatent ts a).map some)
+    | _, _ => "bad-op"
+  | _ => "bad-op"
+
 def handle (line : String) : String :=
   match (line.trimAscii.toString.splitOn " ").filter (· ≠ "") with
   | "rx" :: args => opRx args
+  | "rule" :: args => opRule args
+  | "latent" :: args => opLatent args
   | _ => "bad-op"
 
 partial def loop (h : IO.FS.Stream) (out : IO.FS.Stream) : IO Unit := do
